@@ -268,6 +268,25 @@ def write_model(model, path, skip_empty_tree=False, packed_refs=False):
     return gitdir
 
 
+def make_promisor(gitdir):
+    """Turn the repository into what `git clone --filter=...` leaves behind when the filter happened to omit nothing: all
+    reachable objects in a pack marked .promisor, a promisor remote and extensions.partialClone. Nothing is missing, so git
+    never needs to fetch. Returns False if git could not repack."""
+    p = subprocess.run([REAL_GIT, "--git-dir", gitdir, "repack", "-adq"], env=git_env(), stdout=subprocess.PIPE, stderr=subprocess.PIPE)
+    packdir = os.path.join(gitdir, "objects", "pack")
+    packs = [f for f in os.listdir(packdir) if f.endswith(".pack")]
+    if p.returncode != 0 or not packs:
+        return False
+    for f in packs:
+        open(os.path.join(packdir, f[:-5] + ".promisor"), "w").close()
+    cfgp = os.path.join(gitdir, "config")
+    t = open(cfgp, encoding="utf-8", errors="surrogateescape").read().replace("repositoryformatversion = 0", "repositoryformatversion = 1")
+    t += '[remote "origin"]\n\turl = /nonexistent/promisor-remote.git\n\tpromisor = true\n\tpartialclonefilter = blob:limit=1g\n' \
+         '[extensions]\n\tpartialClone = origin\n'
+    open(cfgp, "w", encoding="utf-8", errors="surrogateescape").write(t)
+    return True
+
+
 def write_refs(gitdir, refs, packed=False):
     if packed:
         lines = []
